@@ -76,8 +76,7 @@ def expect(kind, raw, ctx):
             else:
                 if wd is None:
                     return ("fail", ("InvalidRelativePath",))
-                if not os.path.isabs(wd):
-                    return ("unspec", "relative working directory")
+                # (a relative working directory gives a relative result: joined all the same; only idempotence cannot be asked then)
                 full = os.path.join(wd, s)
             if must_exist and full not in ctx.get("exists", ()):
                 return ("fail", ("PathDoesNotExist",))
